@@ -198,3 +198,46 @@ def main() -> int:
 
 if __name__ == '__main__':
     sys.exit(main())
+
+
+# ---------------------------------------------------------------------------------------------------------------------
+# corpora produced by independent sub-agents (see DESIGN 9, 10): kept seeded changes of this property must be reported,
+# kept behaviour-preserving refactorings must leave the check at exit 0.  Applied to scratch copies of the *current*
+# tree; a patch that no longer applies is counted as not-applicable.
+
+def _run_patch(patch: Path, prop: str) -> Optional[int]:
+    tmp = Path(tempfile.mkdtemp(prefix='fsa_corpus_'))
+    try:
+        shutil.copytree(REPO / 'fsic', tmp / 'fsic', ignore=shutil.ignore_patterns('__pycache__'))
+        p = subprocess.run(['patch', '-p1', '-s', '--no-backup-if-mismatch', '-i', str(patch)], cwd=str(tmp), capture_output=True, text=True)
+        if p.returncode != 0:
+            return None
+        env = dict(os.environ, FSIC_REPO=str(tmp), FSA_OUT=str(tmp / 'out'), PYTHONDONTWRITEBYTECODE='1')
+        q = subprocess.run([str(HERE / 'check'), prop, '--tier', 'quick'], cwd=str(HERE), env=env, capture_output=True, text=True, timeout=180)
+        return q.returncode
+    finally:
+        shutil.rmtree(tmp, ignore_errors=True)
+
+
+def run_corpora(prop: str, jobs: int = 16) -> Dict[str, Any]:
+    import json
+    seeded = []
+    for d in sorted((HERE / 'seeded').iterdir()) if (HERE / 'seeded').is_dir() else []:
+        m = d / 'meta.json'
+        if m.exists() and json.loads(m.read_text()).get('property') == prop and (d / 'patch.diff').exists():
+            seeded.append(d)
+    refs = [d for d in sorted((HERE / 'refactors').iterdir()) if d.is_dir() and (d / 'patch.diff').exists()] if (HERE / 'refactors').is_dir() else []
+    t0 = time.time()
+    with cf.ThreadPoolExecutor(max_workers=jobs) as ex:
+        sres = list(ex.map(lambda d: _run_patch(d / 'patch.diff', prop), seeded))
+        rres = list(ex.map(lambda d: _run_patch(d / 'patch.diff', prop), refs))
+    out: Dict[str, Any] = {'wall_s': None}
+    s_app = [(d.name, r) for d, r in zip(seeded, sres) if r is not None]
+    r_app = [(d.name, r) for d, r in zip(refs, rres) if r is not None]
+    out['seeded_changes_reported'] = f'{sum(1 for _n, r in s_app if r == 1)}/{len(s_app)}' + (f' ({len(seeded) - len(s_app)} not-applicable)' if len(seeded) != len(s_app) else '')
+    out['seeded_not_reported'] = [n for n, r in s_app if r != 1]
+    out['refactorings_silent'] = f'{sum(1 for _n, r in r_app if r == 0)}/{len(r_app)}' + (f' ({len(refs) - len(r_app)} not-applicable)' if len(refs) != len(r_app) else '')
+    out['refactorings_inconclusive'] = [n for n, r in r_app if r == 2]
+    out['refactorings_false_alarm'] = [n for n, r in r_app if r == 1]
+    out['wall_s'] = round(time.time() - t0, 2)
+    return out
